@@ -32,7 +32,9 @@ CALLS = [("read", None), ("read", 0), ("read", 1), ("read", 2), ("readline",), (
          ("readlines", 0), ("write", b"ab"), ("write", b""),
          ("writelines", b"Z", b"\n"), ("seek", 0, 0), ("seek", 1, 0), ("seek", 9, 0), ("seek", 1, 1), ("seek", 0, 2),
          ("seek", -1, 2), ("seek", -1, 0), ("seek", 2, 2), ("tell",), ("truncate", None), ("truncate", 0),
-         ("truncate", 2), ("truncate", 9), ("flush",)]
+         ("truncate", 2), ("truncate", 9), ("flush",),
+         # the explicit spelling of "no size" (a third element: pass None itself, not the parameter's default)
+         ("read", None, "None"), ("truncate", None, "None"), ("readlines", None)]
 
 
 def enc_call(i, c):
@@ -162,7 +164,7 @@ def do_call(f, c):
                 for b in bufs:
                     b[2]()
         if n == "read":
-            r = f.read() if c[1] is None else f.read(c[1])
+            r = (f.read(None) if len(c) > 2 else f.read()) if c[1] is None else f.read(c[1])
             return "b" + _rb(r)
         if n == "readline":
             return "b" + _rb(f.readline() if len(c) == 1 else f.readline(c[1]))
@@ -178,7 +180,7 @@ def do_call(f, c):
         if n == "tell":
             return r_int(f.tell())
         if n == "truncate":
-            return r_int(f.truncate() if c[1] is None else f.truncate(c[1]))
+            return r_int((f.truncate(None) if len(c) > 2 else f.truncate()) if c[1] is None else f.truncate(c[1]))
         if n == "flush":
             f.flush()
             return "U"
@@ -537,15 +539,6 @@ def b_real_case(kind, content, steps, d, cache):
 # a call onwards.  A disagreement with io that the model does not reproduce is a violation.
 
 FTP_RULES = {
-    "w-open-no-truncate":
-        "opening 'w'/'w+' neither truncates nor touches the file; the old bytes stay until the first write at "
-        "offset 0 (open('w').close() leaves the file as it was, reads through 'w+' return the old content)",
-    "a-position-zero":
-        "an 'a'/'a+' handle starts at position 0 (io: end of file): tell() counts only the bytes written through "
-        "the handle and reads through 'a+' start at offset 0",
-    "append-write-position":
-        "after a write through an 'a'/'a+' handle whose position is not the end of file (after a seek) tell() is that "
-        "position plus the bytes written, although they were appended (io: the new end of file)",
     "stor0-truncates":
         "a write that starts at offset 0 through an update handle (r+, or w+ after seek(0)) discards the rest of the "
         "file (STOR with REST 0 truncates; io overwrites in place)",
@@ -556,7 +549,7 @@ FTP_RULES = {
         "the gap)",
     "unflushed-invisible":
         "written bytes reach the file only when the handle seeks or is closed, flush() does nothing: reads through "
-        "other handles, getsize/getinfo, truncate() and seek(n, 2) of the writing handle itself do not see them",
+        "other handles, getsize/getinfo and truncate() of the writing handle itself do not see them",
     "write-after-read-noseek":
         "write() directly after read() on an update handle (no seek between) sends STOR on a control connection "
         "whose RETR is still pending: ftplib.error_reply '226 Transfer complete' or success, depending on timing "
@@ -565,30 +558,11 @@ FTP_RULES = {
         "read() directly after write() on an update handle (no seek between) sends RETR on a control connection "
         "whose STOR is still open; outcome depends on timing (io: reads at the current position); nothing is "
         "compared from that call on",
-    "readline-0":
-        "readline(0) raises StopIteration (io: returns b'')",
-    "readlines-hint-0":
-        "readlines(0) returns after the first line (io: a hint <= 0 means no limit)",
-    "readlines-trailing-empty":
-        "readlines() ends with an extra b'' when the data read ends with a newline or is empty (io: no such item)",
-    "truncate-readonly":
-        "truncate() through a handle opened 'r' rewrites the file (io: io.UnsupportedOperation)",
     "truncate-pending-write":
         "truncate() rewrites the file through a second connection while the handle's own written bytes are still "
         "in flight: they land afterwards at their offset (beyond the new size: with a zero-filled gap)",
     "seek-negative-clamped":
-        "seek to a negative target position returns 0 instead of raising (whence 0: io raises ValueError/OSError)",
-    "readinto-readonly-consumes":
-        "readinto() given a read-only buffer (bytes, read-only memoryview) reads the bytes off the stream before it "
-        "fails with TypeError: the position has advanced and the bytes are lost (io: fails without reading)",
-    "wide-buffer-read":
-        "readinto()/readinto1() given a buffer whose items are wider than one byte (memoryview cast to 'H'/'I', "
-        "array('H'/'I'), ctypes arrays and structures) take len(buffer) for its size in bytes: TypeError/ValueError, "
-        "or fewer bytes read than fit",
-    "wide-buffer-write":
-        "write()/writelines() given such a buffer: write(memoryview of 2- or 4-byte items) never returns (it "
-        "subtracts the bytes sent from the item count and loops on an empty slice), ctypes arrays/structures raise "
-        "TypeError, writelines() raises or stores other bytes",
+        "seek(n, 1) / seek(n, 2) to a negative target position returns 0 (as io.BytesIO does; io.FileIO raises OSError)",
     "read-stream-snapshot":
         "reads continue the RETR stream opened by the handle's first read: bytes written or truncated afterwards "
         "(truncate() of the same handle, other handles) are not seen until the handle seeks",
@@ -602,7 +576,9 @@ def ftp_signature(rule):
 
 # buffer-type block on FTPFile: (method, buffer kind) pairs that disagree with io on the unchanged library
 FTP_BUFFER_PENDING = []
-PENDING_FINDINGS += [ftp_signature(_r) for _r in sorted(FTP_RULES)] + FTP_BUFFER_PENDING
+# registered in known_findings.json (C16, one entry per rule) on 2026-10-01; a rule signature that is not registered
+# there is a violation again (nothing is pending):
+FTP_RULE_SIGNATURES = [ftp_signature(_r) for _r in sorted(FTP_RULES)] + FTP_BUFFER_PENDING
 
 
 class _FtpSrv(object):
@@ -614,6 +590,7 @@ class _FtpSrv(object):
         self.fired = []
         self.step = 0
         self.cut = None
+        self.version = 0          # counts the changes of the stored file
 
     def tick(self, k):
         self.step = k
@@ -651,10 +628,12 @@ class _FtpModelFile(io.RawIOBase):
         self.wc = None            # [STOR/APPE, offset, bytes sent]
         self.truncated_once = False
         srv.handles.append(self)
-        if "w" in m and srv.data:
-            srv.fire("w-open-no-truncate")
-        if "a" in m and srv.data:
-            srv.fire("a-position-zero")
+        if "w" in m or "x" in m:          # truncated when it is opened
+            if srv.data:
+                srv.version += 1
+            srv.data = b""
+        if self.appending:                # positioned at the end of what is stored
+            self.pos = len(srv.observe())
 
     def readable(self):
         return self.reading
@@ -670,8 +649,12 @@ class _FtpModelFile(io.RawIOBase):
 
     def _commit(self):
         if self.wc is not None:
-            kind, off, buf = self.wc
+            kind, off, buf, version = self.wc
             self.wc = None
+            if buf and version != self.srv.version:
+                self.srv.fire("unflushed-invisible")      # the file changed while these bytes were in flight
+            if buf:
+                self.srv.version += 1
             if kind == "APPE":
                 self.srv.data = self.srv.data + bytes(buf)
             elif buf:
@@ -710,12 +693,11 @@ class _FtpModelFile(io.RawIOBase):
         return chunk
 
     def readinto(self, b):
-        mv = memoryview(b).cast("B")
-        if mv.readonly and len(mv):
-            self.srv.fire("readinto-readonly-consumes")
-        data = self.read(len(mv))
-        mv[:len(data)] = data
-        return len(data)
+        mv = memoryview(b)
+        if mv.readonly:
+            raise TypeError("read-only buffer")
+        data = self.read(mv.nbytes)
+        return io.BytesIO(data).readinto(b)
 
     def _lines(self, size=None):
         line, byte = [], b"1"
@@ -723,7 +705,7 @@ class _FtpModelFile(io.RawIOBase):
             while byte:
                 byte = self.read(1)
                 line.append(byte)
-                if byte in b"\n":
+                if byte == b"\n" or (not byte and len(line) > 1):
                     yield b"".join(line)
                     del line[:]
         else:
@@ -731,53 +713,49 @@ class _FtpModelFile(io.RawIOBase):
                 byte = self.read(1)
                 size -= len(byte)
                 line.append(byte)
-                if byte in b"\n" or not size:
+                if byte == b"\n" or (byte and not size) or (not byte and len(line) > 1):
                     yield b"".join(line)
                     del line[:]
 
     def readline(self, size=None):
-        if size == 0:
-            self.srv.fire("readline-0")
-            raise RuntimeError("StopIteration")
         for line in self._lines(size):
             return line
-        raise RuntimeError("StopIteration")
+        return b""
 
     def readlines(self, hint=-1):
         lines, size = [], 0
         for line in self._lines():
             lines.append(line)
             size += len(line)
-            if hint != -1 and size > hint:
-                if hint is not None and hint <= 0:
-                    self.srv.fire("readlines-hint-0")
+            if hint is not None and 0 < hint < size:
                 break
-        if lines and lines[-1] == b"":
-            self.srv.fire("readlines-trailing-empty")
         return lines
 
     def write(self, data):
         if not self.writing:
             raise IOError("File not open for writing")
         data = memoryview(data).tobytes()
+        if not data:
+            return 0
         srv = self.srv
         if self.rc is not None:
             srv.racy("write-after-read-noseek")
         if self.wc is None:
             if self.appending:
-                if self.pos != len(srv.data):
-                    srv.fire("append-write-position")
-                self.wc = ["APPE", None, bytearray()]
+                self.pos = len(srv.observe())         # appended data goes to the end of what is stored
+                self.wc = ["APPE", None, bytearray(), srv.version]
             else:
                 if self.pos > len(srv.data):
                     srv.fire("write-past-eof")
                     raise IOError("554 REST position > file size")
                 if self.pos == 0:
-                    if srv.data and (self.m == "r+" or self.truncated_once):
+                    if srv.data:
                         srv.fire("stor0-truncates")
+                    if srv.data:
+                        srv.version += 1
                     srv.data = b""
                     self.truncated_once = True
-                self.wc = ["STOR", self.pos, bytearray()]
+                self.wc = ["STOR", self.pos, bytearray(), srv.version]
         self.wc[2] += data
         self.pos += len(data)
         return len(data)
@@ -792,19 +770,23 @@ class _FtpModelFile(io.RawIOBase):
 
     def truncate(self, size=None):
         srv = self.srv
+        if not self.writing:
+            raise IOError("File not open for writing")
         if size is None:
             size = self.pos
-        if not self.writing:
-            srv.fire("truncate-readonly")
         if self.wc is not None and len(self.wc[2]):
             srv.fire("truncate-pending-write")
         srv.data = srv.observe()[:size].ljust(size, b"\0")
+        srv.version += 1
         return size
 
     def seek(self, pos, whence=0):
         whence = int(whence)
         if whence not in (0, 1, 2):
             raise ValueError("invalid value for whence")
+        if whence == 0 and pos < 0:
+            raise ValueError("negative seek position")
+        self._commit()                    # a pending upload is completed first
         if whence == 0:
             new = pos
         elif whence == 1:
@@ -815,7 +797,6 @@ class _FtpModelFile(io.RawIOBase):
             self.srv.fire("seek-negative-clamped")
         self.pos = max(0, new)
         self.rc = None
-        self._commit()
         return self.pos
 
 
@@ -1100,12 +1081,6 @@ def boundary_kind(args):
 
     def explained(content, steps, got, expect, bufcall=None):
         why = ftp_explain(kind, content, steps, got) if ftp else None
-        if why is None and ftp and bufcall is not None and BUF_ITEM[steps[bufcall][2][1]] > 1 \
-                and not got.startswith("EXC:"):
-            # a buffer of wide items: everything before that call as io / as the known deviations have it
-            mout, fired, _cut = ftp_model_case(kind, content, steps)
-            if _results(got)[:bufcall] == _results(mout)[:bufcall]:
-                why = fired + ["wide-buffer-read" if steps[bufcall][2][0].startswith("readinto") else "wide-buffer-write"]
         if why is None:
             return False
         stats["explained_by_known_rules"] += 1
@@ -1491,6 +1466,8 @@ def run(report, forced=None):
                    three_way=ftp3,
                    boundary=dict((k, v) for k, v in b_cov.items() if k.startswith("ftp")),
                    rules_seen=sorted(getattr(report, "ftp_rules", {})),
+                   rule_examples=dict((r, dict(kind=e[0], content=e[1], steps=e[2], observed=e[3], io_gives=e[4]))
+                                      for r, e in getattr(report, "ftp_rules", {}).items()),
                    pending_findings_seen=pending_seen),
                traces_validated_against_impl=total - len(bad))
     return report.finish(proof, cov, assumptions=[
